@@ -76,10 +76,26 @@ Coalesce(out, e) ==
        IN SubSeq(out, 1, Len(out) - 1) \o <<merged>>
   ELSE Append(out, e)
 
-RECURSIVE ReadFrom(_, _)
-ReadFrom(p, out) ==
-  IF p = <<>> THEN [ok |-> TRUE, diff |-> out]
+(* the context tests of a hunk must address the neighbours of the edit: the element before its index and the element after *)
+(* the values it removes (checkPatchContext): the hunk keeps only their values                                              *)
+ContextInPlace(ops, h) ==
+  IF h.path = <<>> \/ h.path[Len(h.path)].k # "idx" \/ h.path[Len(h.path)].v < 0 THEN TRUE
+  ELSE LET base == h.path[Len(h.path)].v IN
+       \A i \in DOMAIN ops :
+          (ops[i].op = "test" /\ ~(i < Len(ops) /\ ops[i + 1].op = "remove" /\ ops[i + 1].path = ops[i].path)) =>
+             LET q == PathOfPtr(ops[i].path) IN
+             /\ Len(q) = Len(h.path) /\ SubSeq(q, 1, Len(q) - 1) = SubSeq(h.path, 1, Len(h.path) - 1)
+             /\ q[Len(q)].k = "idx" /\ q[Len(q)].v \in {base - 1, base + Len(h.remove)}
+
+(* grp: for every hunk of out, the operations it was read from *)
+RECURSIVE ReadFrom(_, _, _)
+ReadFrom(p, out, grp) ==
+  IF p = <<>> THEN (IF \A i \in DOMAIN out : ContextInPlace(grp[i], out[i]) THEN [ok |-> TRUE, diff |-> out] ELSE [ok |-> FALSE, diff |-> <<>>])
   ELSE LET e == ReadElement(p) IN
-       IF ~e.ok THEN [ok |-> FALSE, diff |-> <<>>] ELSE ReadFrom(e.rest, Coalesce(out, e.hunk))
-ReadOps(ops) == ReadFrom(ops, <<>>)
+       IF ~e.ok THEN [ok |-> FALSE, diff |-> <<>>]
+       ELSE LET used == SubSeq(p, 1, Len(p) - Len(e.rest))
+                merged == Len(Coalesce(out, e.hunk)) = Len(out) /\ out # <<>>
+            IN ReadFrom(e.rest, Coalesce(out, e.hunk),
+                        IF merged THEN [grp EXCEPT ![Len(grp)] = grp[Len(grp)] \o used] ELSE Append(grp, used))
+ReadOps(ops) == ReadFrom(ops, <<>>, <<>>)
 =============================================================================
